@@ -15,6 +15,7 @@ from __future__ import annotations
 
 import dataclasses
 import enum
+import functools
 import inspect
 import itertools
 import keyword
@@ -31,7 +32,7 @@ from hypothesis import strategies as st  # noqa: E402
 
 from adaptix import DebugTrail, NameStyle, P, ProviderNotFoundError, Retort, name_mapping  # noqa: E402
 from adaptix import load_error as le  # noqa: E402
-from adaptix.conversion import get_converter, impl_converter, link, link_function  # noqa: E402
+from adaptix.conversion import get_converter, impl_converter, link, link_constant, link_function  # noqa: E402
 
 PROP = "C19"
 DEBUG = [DebugTrail.DISABLE, DebugTrail.FIRST, DebugTrail.ALL]
@@ -77,6 +78,10 @@ FUNC_NAMES = ["convert", "coercer", "data", "src", "f'", "a b", "", "1x", "lambd
               "stub_function", "_closure_signature", "constructor", "é", "{x}", "result", "M"]
 
 
+CONV_NAMES = ["g_coercer", "g__closure_signature", "g__update_wrapper", "g_constructor", "g_data", "coercer", "data", "pass", "",
+              "a b", "_closure_signature", "func_0", "constant_0", "é", "__import__('vkit_canary').hit()"]
+
+
 class Color(enum.Enum):
     RED = "red"
 
@@ -92,7 +97,8 @@ class EvilRepr:
         return 1
 
 
-PARAM_DEFAULTS = {"none": lambda: None, "int": lambda: 7, "str_quote": lambda: "a'b\"c\n", "enum": lambda: Color.RED,
+PARAM_DEFAULTS = {"dict_enum_key": lambda: {Color.RED: 1}, "dict_evil_key": lambda: {EvilRepr(): 1},
+                  "dict_tuple_key": lambda: {(1, Color.RED): (EvilRepr(),)}, "none": lambda: None, "int": lambda: 7, "str_quote": lambda: "a'b\"c\n", "enum": lambda: Color.RED,
                   "evil": EvilRepr, "list": lambda: [1], "obj": object, "nan": lambda: float("nan"), "type": lambda: int,
                   "tuple_evil": lambda: (EvilRepr(),)}
 
@@ -129,7 +135,12 @@ def st_case(draw):
         # extra destination fields filled by link_function functions with hostile names, and a nested pair of models named
         # like the outer pair
         case["link_funcs"] = draw(st.lists(st.sampled_from(LINK_FUNC_NAMES), max_size=3)) if draw(st.booleans()) else []
+        # how each extra destination field is filled: a named function, a callable without __name__ (gets a numbered generated
+        # name), a constant without literal form (numbered name too), a dict constant with non-primitive keys
+        case["link_kinds"] = [draw(st.sampled_from(["named", "named", "partial", "constant_obj", "constant_dict"]))
+                              for _ in case["link_funcs"]]
         case["nested_same_name"] = draw(st.integers(0, 3)) == 0
+        case["conv_name"] = draw(st.sampled_from([None, None, *CONV_NAMES]))
     if gen == "impl_converter":
         case["func_name"] = draw(st.sampled_from(FUNC_NAMES))
         np = draw(st.integers(0, 3))
@@ -137,6 +148,16 @@ def st_case(draw):
         case["params"] = [{"n": x, "kw": draw(st.booleans()), "default": draw(st.sampled_from([None, *sorted(PARAM_DEFAULTS)]))}
                           for x in pn if x not in ids]
     return case
+
+
+def tspec_canon_eq(a, b):
+    """A dict constant may be rebuilt from its literal form: equal content with identical non-literal parts."""
+    return type(a) is type(b) and len(a) == len(b) and all(any(k is k2 or (type(k) is type(k2) and k == k2) for k2 in b) for k in a) \
+        and all(a[k] is b[k] or a[k] == b[k] for k in a if k in b)
+
+
+def _identity(value):
+    return value
 
 
 def _returning(value):
@@ -372,19 +393,29 @@ def check_case(ctx: runner.Ctx, case):  # noqa: C901, PLR0912, PLR0915
             dst = build_model(dst_case, "D", extra=[*dst_extra, *[(i, typing.Any) for i in lf_ids]])
         except Exception:  # noqa: BLE001
             return
-        for fid, fname in zip(lf_ids, link_funcs):
+        link_kinds = case.get("link_kinds") or ["named"] * len(link_funcs)
+        for fid, fname, lk in zip(lf_ids, link_funcs, link_kinds):
             marker = ("linked", fid, object())
+            if lk == "constant_dict":
+                marker = {Color.RED: marker, EvilRepr(): 1}
             lf_markers[fid] = marker
-
+            if lk in ("constant_obj", "constant_dict"):
+                conv_recipe.append(link_constant(P[dst][fid], value=marker))
+                continue
+            if lk == "partial":
+                # a factory without __name__: the generator numbers it (func_N)
+                conv_recipe.append(link_constant(P[dst][fid], factory=functools.partial(_identity, marker)))
+                continue
             fn = _returning(marker)
             try:
                 fn.__name__ = fn.__qualname__ = fname
             except (TypeError, ValueError):
                 pass
             conv_recipe.append(link_function(fn, P[dst][fid]))
+        conv_kwargs = {"name": case["conv_name"]} if case.get("conv_name") is not None else {}
         try:
             if gen == "converter":
-                conv = get_converter(cls, dst, recipe=conv_recipe)
+                conv = get_converter(cls, dst, recipe=conv_recipe, **conv_kwargs)
                 extra_args: tuple = ()
             else:
                 params = case.get("params", [])
@@ -443,7 +474,7 @@ def check_case(ctx: runner.Ctx, case):  # noqa: C901, PLR0912, PLR0915
                 if get(res, f["id"]) is not values[f["id"]]:
                     viol("field_not_copied", (kind,), f"field {f['id']!r}: {get(res, f['id'])!r}")
             for fid, marker in lf_markers.items():
-                if get(res, fid) is not marker:
+                if get(res, fid) is not marker and not (isinstance(marker, dict) and tspec_canon_eq(get(res, fid), marker)):
                     viol("link_function_result_misplaced", (kind,),
                          f"field {fid!r} must hold the result of its link_function (functions named {link_funcs!r}): "
                          f"{get(res, fid)!r}")
